@@ -1,9 +1,12 @@
 package proxy
 
 import (
+	"bytes"
 	"context"
+	"crypto/tls"
 	"errors"
 	"fmt"
+	"io"
 	"log"
 	"net"
 	"net/http"
@@ -102,3 +105,66 @@ func (tps *InetAfTCPProxyServer) Shutdown(ctx context.Context) error {
 	}
 	return firstErr
 }
+
+// sniSwitch is the target of the https+tcp+sni listener. It hands a
+// connection to the tcp target when the matcher accepts the server name of
+// its ClientHello and to the https target otherwise.
+type sniSwitch struct {
+	matcher    tcpproxy.Matcher
+	tcp, https tcpproxy.Target
+}
+
+func (s *sniSwitch) HandleConn(c net.Conn) {
+	peeked, sni := peekClientHello(c)
+	target := s.https
+	if s.matcher(context.TODO(), sni) {
+		target = s.tcp
+	}
+	if len(peeked) > 0 {
+		c = &tcpproxy.Conn{HostName: sni, Peeked: peeked, Conn: c}
+	}
+	target.HandleConn(c)
+}
+
+// peekClientHello reads the first TLS record from c, and no more than that,
+// and returns the bytes it has read together with the server name crypto/tls
+// finds in them. The server name is empty when there is none or when the
+// connection does not start with a ClientHello that fits into one record.
+func peekClientHello(c net.Conn) (peeked []byte, sni string) {
+	const (
+		recordHeaderLen     = 5
+		recordTypeHandshake = 0x16
+		maxPlaintext        = 16384
+	)
+	buf := make([]byte, recordHeaderLen, 1024)
+	n, err := io.ReadFull(c, buf)
+	if err != nil || buf[0] != recordTypeHandshake {
+		return buf[:n], ""
+	}
+	recLen := int(buf[3])<<8 | int(buf[4])
+	if recLen > maxPlaintext {
+		return buf, ""
+	}
+	buf = append(buf, make([]byte, recLen)...)
+	n, err = io.ReadFull(c, buf[recordHeaderLen:])
+	buf = buf[:recordHeaderLen+n]
+	if err != nil {
+		return buf, ""
+	}
+	tls.Server(sniSniffConn{r: bytes.NewReader(buf)}, &tls.Config{
+		GetConfigForClient: func(hello *tls.ClientHelloInfo) (*tls.Config, error) {
+			sni = hello.ServerName
+			return nil, nil
+		},
+	}).Handshake()
+	return buf, sni
+}
+
+// sniSniffConn is a net.Conn which reads from r and fails on writes.
+type sniSniffConn struct {
+	r        io.Reader
+	net.Conn // nil; crash on any unexpected use
+}
+
+func (c sniSniffConn) Read(p []byte) (int, error) { return c.r.Read(p) }
+func (sniSniffConn) Write(p []byte) (int, error)  { return 0, io.EOF }
